@@ -205,6 +205,21 @@ def tokens_in_context(acc):
                 record(acc, d, text, load(d, text), "ctx")
 
 
+def long_flat(acc):
+    """Sets and sequences with thousands of elements at nesting depth 1 (a look-up
+    table written as one sequence), closed and cut off, under every variant."""
+    for n in (500, 984, 985, 1024, 2048, 5000):
+        items = ", ".join(str(i) for i in range(n))
+        for text in (f"a = ({items})\nEND\n", f"a = {{{items}}}\nEND\n",
+                     f"a = ({items}", f"GROUP = g\n b = ({items}) <m>\nEND_GROUP\n",
+                     "a = (" + ", ".join(f'"s{i}"' for i in range(n)) + ")"):
+            for d in PARSERS:
+                if acc.expired():
+                    acc.notes["budget_exhausted"] = 1
+                    return
+                record(acc, d, text, load(d, text), "long-flat")
+
+
 def corpus():
     files = sorted(glob.glob(os.path.join(REPO, "tests", "data", "**", "*"),
                              recursive=True))
@@ -371,6 +386,7 @@ def shards(tier, seed):
                         dict(first=[v], length=length, variants=list(PARSERS),
                              vocab="HASHDASH")))
     out.append(("tokens_in_context", {}))
+    out.append(("long_flat", {}))
     n = 400 if tier == "quick" else 12000
     for j in range(16):
         out.append(("random_texts", dict(n=n, seed=seed * 1000 + j)))
